@@ -12,7 +12,7 @@ def main():
     try:
         with contextlib.redirect_stdout(io.StringIO()):
             p = ElectionProfile(data=req['blt'])
-            E = Election(p, dict(req['options']))
+            E = Election(p) if req['options'] is None else Election(p, dict(req['options']))
             E.count()
             out = dict(report=E.report(), dump=E.dump(), json=E.json())
     except Exception as e:      # pylint: disable=broad-except
